@@ -37,7 +37,7 @@ func c12Accounts() []AcctSpec {
 		as = append(as, AcctSpec{Login: fmt.Sprintf("u%d", m), Name: fmt.Sprintf("Acct %d", m), Access: accessOf(bits...)})
 	}
 	// an administrator (user flag admin is set from AccessDisconUser) who may do everything about chat
-	as = append(as, AcctSpec{Login: "u8", Name: "Admin", Access: accessOf(hotline.AccessReadChat, hotline.AccessSendChat, hotline.AccessOpenChat, hotline.AccessDisconUser)})
+	as = append(as, AcctSpec{Login: "u8", Name: "Admin", Access: accessOf(hotline.AccessReadChat, hotline.AccessSendChat, hotline.AccessOpenChat, hotline.AccessDisconUser, hotline.AccessModifyUser)})
 	return as
 }
 
@@ -64,6 +64,22 @@ type c12run struct {
 	req     uint32
 	mixed   bool
 	ops     map[string]int
+	// the ACCOUNTS' current access as the history edited it (the reference for every audience / privilege judgement)
+	acct map[int]hotline.AccessBitmap
+}
+
+func (h *c12run) acctAccess(m int) hotline.AccessBitmap {
+	if h.acct == nil {
+		h.acct = map[int]hotline.AccessBitmap{}
+		for i, a := range c12Accounts() {
+			h.acct[i] = a.Access
+		}
+	}
+	return h.acct[m]
+}
+
+func (cl *c12cl) follow(a hotline.AccessBitmap) {
+	cl.read, cl.send, cl.open = a.IsSet(hotline.AccessReadChat), a.IsSet(hotline.AccessSendChat), a.IsSet(hotline.AccessOpenChat)
 }
 
 func (h *c12run) liveClients() []*c12cl {
@@ -216,9 +232,10 @@ func (h *c12run) login(r *RNG) {
 	cc, _ := h.ts.DirectClient(fmt.Sprintf("u%d", m), name, fmt.Sprintf("10.0.0.%d:4000", len(h.clients)+1))
 	cc.Icon = icon
 	cl := &c12cl{cc: cc, id: int(binary.BigEndian.Uint16(cc.ID[:])), acct: m, name: name, icon: icon, live: true}
-	cl.read, cl.send, cl.open = acctFlags(m)
+	cl.follow(h.acctAccess(m))
 	h.clients = append(h.clients, cl)
-	h.record(fmt.Sprintf("L %s %s %s %s %s", hx([]byte(fmt.Sprintf("u%d", m))), hx([]byte(acctName(m))), acctAccessHex(m), hx(name), hx(icon)), nil)
+	// the model is told what the account manager handed to the session; the judgements use the account as edited
+	h.record(fmt.Sprintf("L %s %s %s %s %s", hx([]byte(cc.Account.Login)), hx([]byte(cc.Account.Name)), hx(cc.Account.Access[:]), hx(name), hx(icon)), nil)
 	h.ops["login"]++
 }
 
@@ -249,6 +266,9 @@ func (h *c12run) step(r *RNG, allowBig *int) {
 			return 0, false
 		}
 		return h.chats[r.Intn(len(h.chats))], true
+	}
+	if r.Chance(7) && h.accountEdit(r) {
+		return
 	}
 	op := r.Intn(100)
 	switch {
@@ -467,6 +487,59 @@ func (h *c12run) step(r *RNG, allowBig *int) {
 			h.c.Dist("text/long")
 		}
 	}
+}
+
+// accountEdit: a connected administrator changes an account's chat privileges with TranSetUser (read / send / open
+// chat; the disconnect-user bit is left alone except in 15 % of the edits).  From then on every connected user of that
+// account, and everybody who logs in with it, is judged by the account's new access.
+func (h *c12run) accountEdit(r *RNG) bool {
+	var admin *c12cl
+	for _, c := range h.liveClients() {
+		if c.acct == 8 {
+			admin = c
+		}
+	}
+	if admin == nil {
+		return false
+	}
+	m := r.Intn(8)
+	acc := h.acctAccess(m)
+	flip := func(bit int) {
+		if acc.IsSet(bit) {
+			acc[bit/8] &^= 1 << uint(7-bit%8)
+		} else {
+			acc.Set(bit)
+		}
+	}
+	flip(r.Pick(hotline.AccessReadChat, hotline.AccessReadChat, hotline.AccessSendChat, hotline.AccessOpenChat))
+	if r.Chance(30) {
+		flip(r.Pick(hotline.AccessReadChat, hotline.AccessSendChat))
+	}
+	if r.Chance(15) {
+		flip(hotline.AccessDisconUser)
+	}
+	h.req++
+	login := fmt.Sprintf("u%d", m)
+	outs := h.call(admin, mkTran(hotline.TranSetUser, h.req,
+		fld(hotline.FieldUserLogin, hotline.EncodeString([]byte(login))), fld(hotline.FieldUserName, []byte(acctName(m))),
+		fld(hotline.FieldUserAccess, acc[:]), fld(hotline.FieldUserPassword, []byte{0})))
+	h.replyCheck(admin, h.req, outs, true)
+	for i := range outs {
+		if outs[i].IsReply == 1 && outs[i].ErrorCode != [4]byte{} {
+			h.c.Violation("account-edit-refused", "an administrator's account edit was refused")
+		}
+	}
+	h.acct[m] = acc
+	for _, c := range h.liveClients() {
+		if c.acct == m {
+			c.follow(acc)
+		}
+	}
+	// the handler's own outputs (354 / 301 / reply) are presence traffic, modelled and judged in C13
+	h.evs = append(h.evs, fmt.Sprintf("E %s %s", hx([]byte(login)), hx(acc[:])))
+	h.impl = append(h.impl, ".")
+	h.ops["account-edit"]++
+	return true
 }
 
 // replyCheck: at most one reply-flagged transaction, to the requester, with the request's id; exactly one when expected.
@@ -905,7 +978,7 @@ func runStaleMember(c *Case) {
 
 func init() {
 	props["C12"] = func(x *Ctx) {
-		x.rule = "histories of login / disconnect / invite-to-new-chat / invite / join / leave / decline / set-subject / send (public, private, emote, odd option values) by 2-8 clients drawn from 9 accounts covering every combination of read-chat, send-chat and open-chat (plus an administrator); names and messages are arbitrary byte strings (ASCII, Mac-Roman, valid UTF-8 of width 2-4, truncated / overlong / surrogate sequences, NUL, CR) with lengths biased to 0,1,12..15 and 8150..9000; chat ids are the ones the server drew. Every handler result is compared with the Lean model's output for the same history and judged directly (audience computed from the membership implied by the history; text by a reference formatter). stale-member: a member disconnects, the id counter is moved past the wrap so that a newcomer is handed its id, then lines / subject / decline / join / leave traffic of that chat is judged (members exactly once, newcomer nothing, until it joins). non-trivial = the history contains a public line with both a reader and a non-reader connected, or a private line / notice with both a connected member and a connected non-member; distinct = distinct event lists"
+		x.rule = "histories of login / disconnect / invite-to-new-chat / invite / join / leave / decline / set-subject / send (public, private, emote, odd option values) and account edits (an administrator's TranSetUser flipping read-chat / send-chat / open-chat of an account, the disconnect-user bit untouched in 85 % of them; audiences are then judged by the account's current access) by 2-8 clients drawn from 9 accounts covering every combination of read-chat, send-chat and open-chat (plus an administrator); names and messages are arbitrary byte strings (ASCII, Mac-Roman, valid UTF-8 of width 2-4, truncated / overlong / surrogate sequences, NUL, CR) with lengths biased to 0,1,12..15 and 8150..9000; chat ids are the ones the server drew. Every handler result is compared with the Lean model's output for the same history and judged directly (audience computed from the membership implied by the history; text by a reference formatter). stale-member: a member disconnects, the id counter is moved past the wrap so that a newcomer is handed its id, then lines / subject / decline / join / leave traffic of that chat is judged (members exactly once, newcomer nothing, until it joins). non-trivial = the history contains a public line with both a reader and a non-reader connected, or a private line / notice with both a connected member and a connected non-member; distinct = distinct event lists"
 		x.assume = []string{
 			"a single net.Conn.Write is atomic (end-to-end runs use an in-memory connection with that behaviour)",
 			"histories are sequential (one request is handled at a time); concurrent schedules are C14's subject",
